@@ -89,25 +89,46 @@ package jtypes
 //@   requires opt != nil
 //@   ensures result == deref(opt)
 //@   assigns nothing
+// Optional parameters: Set receives the argument after it was converted to the underlying parameter type (a Value of
+// that type: kind Bool / Int / Float64 / String, any interfaceable Value, a reflect.Value in a Value, a Value whose
+// type is or implements Callable - which for an interface-typed Value may be the nil interface)
+//@ func (*OptionalBool).Set
+//@   props C20 C09
+//@   requires opt != nil && kind(v) == 1
+//@ func (*OptionalInt).Set
+//@   props C20 C09
+//@   requires opt != nil && 2 <= kind(v) && kind(v) <= 6
+//@ func (*OptionalFloat64).Set
+//@   props C20 C09
+//@   requires opt != nil && (kind(v) == 13 || kind(v) == 14)
+//@ func (*OptionalString).Set
+//@   props C20 C09
+//@   requires opt != nil
+//@ func (*OptionalInterface).Set
+//@   props C20 C09
+//@   requires opt != nil && valid(v) && canif(v)
+//@ func (*OptionalCallable).Set
+//@   props C20 C09
+//@   requires opt != nil && valid(v) && canif(v) && (kind(v) == 20 ? rvtype(v) >= 0 : rtimpl(rvtype(v), "Callable"))
 //@ nonnil payload jtypes.Callable
 //@ func iface:Callable.Name
 //@   assigns nothing
 //@ func iface:Callable.ParamCount
 //@   ensures result >= 0
+//@   ensures [assumed:the-parameter-count-of-a-function-never-changes] result == ufi_paramcount(recv)
 //@   assigns nothing
 //@ func iface:Callable.Call
+//@   requires [arguments-are-usable-values] forall k in [0, len(arg1)): (valid(arg1[k]) ==> canif(arg1[k]))
 //@   ensures r1 != nil ==> !valid(r0)
 //@   ensures (r1 == nil && valid(r0)) ==> canif(r0)
 //@   assigns heap
 
-// Callability is decided by the reflect type system (trusted): an uninterpreted predicate of the resolved Value.
+// Callability: the resolved Value's type, or the pointer type to it, implements Callable (reflect.Type.Implements, the relation that also decides type assertions).
+//@ pred callableV(v reflect.Value) = valid(v) && (rtimpl(rvtype(v), "Callable") || rtimpl(ptrto(rvtype(v)), "Callable"))
 //@ func IsCallable
-//@   ensures result == ufb_callable(res(v))
-//@   ensures result ==> valid(res(v))
+//@   ensures result == callableV(res(v))
 //@   assigns nothing
-//@   trusted
 //@ func AsCallable
-//@   ensures r1 ==> (r0 != nil && ufb_callable(res(v)) && valid(res(v)))
+//@   ensures r1 ==> (r0 != nil && callableV(res(v)))
 //@   ensures !r1 ==> r0 == nil
 //@   assigns nothing
-//@   trusted
